@@ -84,6 +84,9 @@ KINDS = {
     # generics, instantiated at u16
     "gen_method": K(name="gen_method", sig="T{i}", decl="let p{i}: u16 = {v};", arg="p{i}", canon_m="m{i}",
                     canon_a="&a{i}", canon_c="&p{i}", base="u16", generic="method", elem_ty="u16"),
+    # a method-level generic WITHOUT Send/Sync bounds (the expansion must not demand more than the trait declares)
+    "gen_method_ns": K(name="gen_method_ns", sig="T{i}", decl="let p{i}: u16 = {v};", arg="p{i}", canon_m="m{i}",
+                       canon_a="&a{i}", canon_c="&p{i}", base="u16", generic="method", elem_ty="u16"),
     "gen_impl": K(name="gen_impl", sig="impl std::fmt::Debug + Clone + Send + Sync + 'static",
                   decl="let p{i}: u16 = {v};", arg="p{i}", canon_m="m{i}", canon_a="&a{i}", canon_c="&p{i}",
                   base="u16", generic="impl", elem_ty="u16"),
@@ -187,6 +190,8 @@ def supported(s: Shape) -> Optional[str]:
             return "impl Trait parameters in async methods not generated"
         if s.receiver in ("rc",):
             return "Rc receiver is not Send"
+        if s.asyncness in ("rpit", "async_trait") and any(k.name == "gen_method_ns" for k in kinds):
+            return "a non-Send generic cannot be held by a future that is declared Send"
         if s.asyncness in ("rpit", "async_trait") and any(k.name in ("mut_wr",) for k in kinds):
             return "lifetime-carrying &mut params with boxed/rpit futures not generated"
         if s.receiver == "pin":
@@ -378,7 +383,9 @@ def render_trait(s: Shape, idx: int, trait_name="Tr", method="m", unmock_attr=""
     if any(k.name == "mut_u32_lt" for k in kinds):
         generics.append("'b")
     for i, k in enumerate(kinds):
-        if k.generic == "method":
+        if k.name == "gen_method_ns":
+            generics.append(f"T{i}: std::fmt::Debug + Clone + 'static")
+        elif k.generic == "method":
             generics.append(f"T{i}: std::fmt::Debug + Clone + Send + Sync + 'static")
     gen = f"<{', '.join(generics)}>" if generics else ""
     trait_gen = "<G: std::fmt::Debug + Clone + Send + Sync + 'static>" if any(k.generic == "trait" for k in kinds) else ""
@@ -841,7 +848,7 @@ def core_shapes_forward():
     """A deterministic pairwise-style core set for C05."""
     shapes = []
     plain = ["u32", "string", "nodbg", "ref_u32", "refref_u32", "ref_str", "ref_bytes", "ref_nodbg", "mut_u32",
-             "mut_u32_lt", "mut_vec", "mut_wr", "opt_ref", "tuple", "array", "boxed", "gen_method", "gen_impl", "gen_trait"]
+             "mut_u32_lt", "mut_vec", "mut_wr", "opt_ref", "tuple", "array", "boxed", "gen_method", "gen_method_ns", "gen_impl", "gen_trait"]
     # every kind alone, on every receiver
     for r in RECEIVERS:
         for k in plain:
@@ -862,7 +869,8 @@ def core_shapes_forward():
     for a in ["async_fn", "async_trait", "rpit"]:
         for r in ["ref", "mut", "owned", "box", "arc"]:
             for params in (["u32"], ["ref_str", "u32"], ["string", "ref_u32", "mut_u32"], [],
-                           ["mut_vec", "ref_bytes", "nodbg", "u32"], ["gen_method", "ref_str"]):
+                           ["mut_vec", "ref_bytes", "nodbg", "u32"], ["gen_method", "ref_str"],
+                           ["u32", "gen_method_ns"]):
                 for ret in ("u32", "string", "self_ref", "unit", "opt_self_ref"):
                     shapes.append(Shape(r, list(params), ret, asyncness=a))
     # named self lifetime
